@@ -153,6 +153,40 @@ fn logger_case(n: u32, p_eval: u32, p_prog: u32, dup: bool, missing: bool, iter_
     let _ = std::fs::remove_file(&path);
     let decoded = decode_export(&export);
     if decoded != expected { fail("the JSON export does not decode to the recorded steps", &decoded) }
+    // CBOR export: decoded with ciborium into its generic value type, converted to the same shape
+    let path = path.with_extension("cbor");
+    state.log().to_cbor(&path).unwrap();
+    let cbor: ciborium::value::Value = ciborium::de::from_reader(std::fs::File::open(&path).unwrap()).unwrap();
+    let _ = std::fs::remove_file(&path);
+    let decoded = decode_cbor(&cbor);
+    if decoded != expected { fail("the CBOR export does not decode to the recorded steps", &decoded) }
+}
+fn cbor_scalar(v: &ciborium::value::Value) -> Value {
+    use ciborium::value::Value as C;
+    match v {
+        C::Integer(i) => json!(i128::from(*i) as i64),
+        C::Float(f) => json!(*f),
+        C::Null => Value::Null,
+        C::Bool(b) => json!(*b),
+        C::Text(t) => json!(t),
+        other => panic!("unexpected CBOR value {other:?}"),
+    }
+}
+fn decode_cbor(export: &ciborium::value::Value) -> Decoded {
+    use ciborium::value::Value as C;
+    let top = match export { C::Map(m) => m, _ => panic!("CBOR export is not a map") };
+    let field = |name: &str| top.iter().find(|(k, _)| matches!(k, C::Text(t) if t == name)).map(|(_, v)| v).unwrap_or_else(|| panic!("CBOR export has no field {name}"));
+    let names: Vec<String> = match field("names") { C::Array(a) => a.iter().map(|n| match n { C::Text(t) => t.clone(), _ => panic!("name is not text") }).collect(), _ => panic!("names is not an array") };
+    match field("entries") {
+        C::Array(steps) => steps.iter().map(|step| match step {
+            C::Map(m) => m.iter().map(|(k, v)| {
+                let idx = match k { C::Integer(i) => i128::from(*i) as usize, _ => panic!("entry key is not an integer") };
+                (names[idx].clone(), cbor_scalar(v))
+            }).collect(),
+            _ => panic!("step is not a map"),
+        }).collect(),
+        _ => panic!("entries is not an array"),
+    }
 }
 
 // @native-harness
